@@ -109,7 +109,7 @@ hterm = st.tuples(st.just('hterm'), k, st.sampled_from([-15, 15])).map(list)
 grow = st.tuples(st.just('grow'), st.integers(1, 2)).map(list)
 shrink = st.tuples(st.just('shrink'), st.just(1)).map(list)
 close = st.just(['close'])
-closerace = st.just(['closerace'])
+closerace = st.sampled_from([['closerace'], ['closerace', 'create']])
 join = st.just(['join'])
 
 
